@@ -168,8 +168,12 @@ def ff_getters(repo, res, ty, rule="FF"):
         for fld, getter in pairs:
             ok = False
             if sites:
-                p = A.resolve(P.ctor_field(sites[0], fld), envs.get(id(sites[0])))
-                ok = getter in A.show(p)
+                fe = P.ctor_field(sites[0], fld)
+                p = A.resolve(fe, envs.get(id(sites[0])))
+                others = {g for f2, g in pairs if f2 != fld}
+                calls = A.reach_calls(fe, envs.get(id(sites[0])))
+                # the field's value is computed by its own getter and by no other field's getter (`flag.then(|| getter(..))` hides the call from the term)
+                ok = getter in A.show(p) or (getter in calls and not (others & calls))
             res.check(ok, rule, f"{rule}:{fq}:{fld}", f"{ctor}.{fld} <= {getter}(..)", fn.loc())
 
 
